@@ -3104,9 +3104,21 @@ func (a *AccumulatedServiceOutput) Encode(e *Encoder) error {
 		return err
 	}
 
+	// Map iteration order is random: encode the pairs ordered by service id, then hash
+	keys := make([]AccumulatedServiceHash, 0, len(*a))
 	for accumulatedServiceHash := range *a {
+		keys = append(keys, accumulatedServiceHash)
+	}
+	sort.Slice(keys, func(i, j int) bool {
+		if keys[i].ServiceID != keys[j].ServiceID {
+			return keys[i].ServiceID < keys[j].ServiceID
+		}
+		return bytes.Compare(keys[i].Hash[:], keys[j].Hash[:]) < 0
+	})
+
+	for i := range keys {
 		// AccumulatedServiceHash
-		if err := accumulatedServiceHash.Encode(e); err != nil {
+		if err := keys[i].Encode(e); err != nil {
 			return err
 		}
 	}
